@@ -4,90 +4,108 @@
     code has ([within_block : option geometry], [k], [trials],
     [max_trials_required]) and [build : state -> desc -> state * option summary]:
     what constructing a CrossBlock / MultiCrossBlock ([DLeaf]), [Repeat], [Merge],
-    [Nest] writes into the shared objects ([init_within_block] = set-if-None for the
-    new block's constraints and [orig_constraints]; [copy.copy] +
-    [sustain_within_block] for the outer constraints of [Nest];
-    [max_trials_required] in [Block.__validate]) and which geometry, [k] and
-    [trials] every constraint of the new block ends up using (the summary).
+    [Nest] does to the store: [_create] first makes private shallow copies of the
+    constraint objects it is given ([copy.copy], new store entries), which become the
+    block's [orig_constraints]; [max_trials_required] ([Block.__validate]) and
+    [init_within_block] (set-if-None) are written on the copies; [Repeat] / [Merge]
+    hand the inner blocks' initialised copies on, [Nest] copies the outer block's and
+    applies [sustain_within_block].  The summary of a block is the kind, geometry, [k]
+    and [trials] every constraint of the new block ends up using.
     [run] builds a list of constructions in order on one store;
     [mask keep ds] builds only the blocks of [keep] (the twin of a block from fresh
     objects is [mask (keep_of ds i) ds], its dependency closure);
     [shared_summary] / [fresh_summary] are the summaries of block [i] in the two runs.
 
-    Full statement (FALSE for the model of the current code, see [C18_reuse_refuted]):
-
-      C18_build_history_independent :
-        forall user ds i, wf (length user) ds = true -> closed (keep_of ds i) ds = true ->
-          shared_summary user ds i = fresh_summary user ds i.
-
-    It would follow from the invariant "a build leaves the caller's store
-    unchanged", which the set-if-None write of [init_within_block] on the user's own
-    objects violates: the object keeps the geometry of the first block it met. *)
+    History.  For the code before /repo commit 88b3d0f the model had no copies in
+    [_create] and the headline statement was FALSE of it: [C18_reuse_refuted] exhibited
+    c = AtMostKInARow(1, (f, "a")) used in CrossBlock([f],[f],[c]) (2 trials) and then
+    in CrossBlock([f,g],[f,g],[c]) (4 trials): the second block kept the 2-trial
+    geometry.  Replayed on the real code the witness gave 16 sequences instead of 12
+    (f = b,a,a,b accepted) and a mismatch verdict that differed from the fresh twin's;
+    the defect was repaired in 88b3d0f (private copies), the model follows the repaired
+    code, the correspondence run compares it with the real constructors on every run,
+    and the statement is now proved without any condition on sharing. *)
 From Coq Require Import ZArith List Bool Arith.
 From SP Require Import Hist.Reuse Hist.ReuseProofs.
 Import ListNotations.
 Open Scope Z_scope.
 
-(** The witness: c = AtMostKInARow(1, (f, "a")); CrossBlock([f], [f], [c]) (2 trials), then
-    CrossBlock([f, g], [f, g], [c]) (4 trials).  In the shared build the second block uses the
-    2-trial geometry, its fresh twin the 4-trial one. *)
-Theorem C18_reuse_refuted :
-  exists (user : list cobj) (ds : list desc) (i : nat),
-    wf (List.length user) ds = true /\ closed (keep_of ds i) ds = true /\
-    shared_summary user ds i = Some [(KAtMost, Some wit_g2, 1, 0)] /\
-    fresh_summary user ds i = Some [(KAtMost, Some wit_g4, 1, 0)] /\
-    shared_summary user ds i <> fresh_summary user ds i.
-Proof. exact reuse_refuted. Qed.
-Print Assumptions C18_reuse_refuted.
+(** For every sequence of constructions, in any order, and every dependency-closed set [keep] of
+    blocks, each kept block gets exactly the summary it gets when only the kept blocks are built
+    from fresh objects - however factor and constraint objects are shared. *)
+Theorem C18_build_history_independent :
+  forall (user : list cobj) (ds : list desc) (keep : nat -> bool) (i : nat),
+    wf (List.length user) ds = true -> closed keep ds = true -> keep i = true ->
+    nth_error (snd (run (init_state user) ds)) i = nth_error (snd (run (init_state user) (mask keep ds))) i.
+Proof. exact history_independent. Qed.
+Print Assumptions C18_build_history_independent.
 
-(** The guarded statement: if every constraint object that has a [within_block] is handed
-    (directly, in a constructor's constraint list) only to constructions of one and the same
-    geometry [gc c] - constraints without [within_block] (Exclude, Sequential, LatinSquare,
-    MinimumTrials, ContinuousConstraint) are not restricted - then for every sequence of
-    constructions, in any order, and every dependency-closed set [keep] of blocks, each kept block
-    gets exactly the summary it gets when only the kept blocks are built. *)
+(** ... in the form the check uses: shared build = fresh twin. *)
+Theorem C18_shared_equals_fresh :
+  forall (user : list cobj) (ds : list desc) (i : nat),
+    wf (List.length user) ds = true -> closed (keep_of ds i) ds = true ->
+    shared_summary user ds i = fresh_summary user ds i.
+Proof. exact shared_eq_fresh. Qed.
+Print Assumptions C18_shared_equals_fresh.
+
+(** The invariant behind it: a construction never writes an object that existed before it (the
+    store only grows) ... *)
+Theorem C18_build_never_writes_store :
+  forall (user : list cobj) (s : state) (d : desc) (id : nat),
+    good user s -> desc_ok user d -> (id < next s)%nat -> objs (fst (build s d)) id = objs s id.
+Proof. exact build_never_writes. Qed.
+Print Assumptions C18_build_never_writes_store.
+
+Theorem C18_build_preserves_store_invariant :
+  forall (user : list cobj) (s : state) (d : desc),
+    good user s -> desc_ok user d -> good user (fst (build s d)).
+Proof. exact build_good. Qed.
+Print Assumptions C18_build_preserves_store_invariant.
+
+(** ... so after any sequence of constructions the user's objects are as the user created them. *)
+Theorem C18_user_objects_never_written :
+  forall (user : list cobj) (ds : list desc) (c : nat),
+    wf (List.length user) ds = true -> (c < List.length user)%nat ->
+    objs (fst (run (init_state user) ds)) c = fresh (nth c user default_obj).
+Proof. exact user_objects_never_written. Qed.
+Print Assumptions C18_user_objects_never_written.
+
+(** The statement that was provable before the repair (every constraint object with a
+    [within_block] handed only to constructions of one geometry) is a special case. *)
 Theorem C18_build_history_independent_guarded :
   forall (user : list cobj) (gc : nat -> geom) (ds : list desc) (keep : nat -> bool) (i : nat),
-    wf (List.length user) ds = true ->
-    (forall d, In d ds -> forall c, In c (d_cs d) ->
-       has_within (c_kind (nth c user default_obj)) = true -> d_geom d = gc c) ->
-    closed keep ds = true -> keep i = true ->
+    wf (List.length user) ds = true -> consistent user gc ds -> closed keep ds = true -> keep i = true ->
     nth_error (snd (run (init_state user) ds)) i = nth_error (snd (run (init_state user) (mask keep ds))) i.
 Proof. exact history_independent_guarded. Qed.
 Print Assumptions C18_build_history_independent_guarded.
 
-(** ... in the form the check uses: shared build = fresh twin. *)
-Theorem C18_shared_equals_fresh_guarded :
-  forall (user : list cobj) (gc : nat -> geom) (ds : list desc) (i : nat),
-    wf (List.length user) ds = true -> consistent user gc ds -> closed (keep_of ds i) ds = true ->
-    shared_summary user ds i = fresh_summary user ds i.
-Proof. exact shared_eq_fresh_guarded. Qed.
-Print Assumptions C18_shared_equals_fresh_guarded.
+(** The old witness ([C18_reuse_refuted] before the repair) is now history independent: the
+    4-trial block uses the 4-trial geometry in the shared build as in its fresh twin, and the
+    user's object (store entry 0) is untouched; entries 1 and 2 are the two blocks' copies. *)
+Theorem C18_old_witness_history_independent :
+  wf (List.length wit_user) wit_prog = true /\ closed (keep_of wit_prog 1) wit_prog = true /\
+  shared_summary wit_user wit_prog 0 = Some [(KAtMost, Some wit_g2, 1, 0)] /\
+  shared_summary wit_user wit_prog 1 = Some [(KAtMost, Some wit_g4, 1, 0)] /\
+  fresh_summary wit_user wit_prog 1 = Some [(KAtMost, Some wit_g4, 1, 0)] /\
+  store_list (fst (run (init_state wit_user) wit_prog)) =
+    [ {| c_kind := KAtMost; c_within := None; c_k := 1; c_trials := 0; c_mtr := None |};
+      {| c_kind := KAtMost; c_within := Some wit_g2; c_k := 1; c_trials := 0; c_mtr := None |};
+      {| c_kind := KAtMost; c_within := Some wit_g4; c_k := 1; c_trials := 0; c_mtr := None |} ].
+Proof. exact old_witness_independent. Qed.
+Print Assumptions C18_old_witness_history_independent.
 
-(** Constraint objects without [within_block] can be shared freely. *)
-Theorem C18_shared_equals_fresh_without_within_block :
-  forall (user : list cobj) (ds : list desc) (i : nat),
-    wf (List.length user) ds = true -> Forall (fun o => has_within (c_kind o) = false) user ->
-    closed (keep_of ds i) ds = true ->
-    shared_summary user ds i = fresh_summary user ds i.
-Proof. exact shared_eq_fresh_no_within. Qed.
-Print Assumptions C18_shared_equals_fresh_without_within_block.
-
-(** The single-run invariant behind it: whatever is built, the user's objects keep their kind,
-    [k] and [trials], and their [within_block] is unset or their one geometry; every
-    [orig_constraints] list holds existing objects whose geometry is set. *)
-Theorem C18_build_preserves_store_invariant :
-  forall (user : list cobj) (gc : nat -> geom) (s : state) (d : desc),
-    good user gc s -> desc_ok user gc d -> good user gc (fst (build s d)).
-Proof. exact build_good. Qed.
-Print Assumptions C18_build_preserves_store_invariant.
-
-(** The hypotheses are satisfiable by a non-trivial program: one AtMostKInARow object in two
-    blocks of the same geometry, one of which is repeated, an ExactlyK object on the outer block
-    of a Nest (copied and sustained: geometry and [k] doubled), a MinimumTrials object. *)
-Example C18_guarded_example :
-  wf (List.length ex_user) ex_prog = true /\ consistent ex_user (fun _ => wit_g2) ex_prog /\
-  closed (keep_of ex_prog 3) ex_prog = true /\
+(** A program with heavy sharing: one AtMostKInARow object in a 2-trial block, in a 4-trial block
+    and in the constraint list of a Repeat of the first; an ExactlyK object in both blocks, hence
+    (copied and sustained: geometry and [k] doubled) on the outer side of a Nest and, with its own
+    geometry, on the inner side; a MinimumTrials object. *)
+Example C18_sharing_example :
+  wf (List.length ex_user) ex_prog = true /\ closed (keep_of ex_prog 3) ex_prog = true /\
+  closed (keep_of ex_prog 2) ex_prog = true /\
+  shared_summary ex_user ex_prog 1 = Some [(KAtMost, Some wit_g4, 1, 0); (KExactlyK, Some wit_g4, 1, 0)] /\
+  shared_summary ex_user ex_prog 2 =
+    Some [(KAtMost, Some wit_g2, 1, 0); (KExactlyK, Some wit_g2, 1, 0); (KMinTrials, None, 0, 4); (KAtMost, Some wit_g4, 1, 0)] /\
   shared_summary ex_user ex_prog 3 =
-    Some [(KAtMost, Some (gsustain wit_g2 2), 1, 0); (KExactlyK, Some (gsustain wit_g2 2), 2, 0); (KAtMost, Some wit_g2, 1, 0)].
-Proof. exact ex_guarded. Qed.
+    Some [(KAtMost, Some (gsustain wit_g2 2), 1, 0); (KExactlyK, Some (gsustain wit_g2 2), 2, 0);
+          (KAtMost, Some wit_g4, 1, 0); (KExactlyK, Some wit_g4, 1, 0)] /\
+  fresh_summary ex_user ex_prog 3 = shared_summary ex_user ex_prog 3.
+Proof. vm_compute. repeat split; reflexivity. Qed.
